@@ -19,7 +19,10 @@ for m in sorted(glob.glob(os.path.join(V, "seeded", "*", "meta.json"))):
     for c in det[:1]:
         dd = d["checks"][c]["detail"]
         how = dd[0][:160] if dd else ""
-    rows.append(f"| {name} | {d['property']} | {'yes' if d.get('confirmed') else 'NO'} | {', '.join(det) or 'MISSED'} | {first} | {how.replace('|', '/')} |")
+    missed = "not detected - see judgement" if d.get("judgement") else "MISSED"
+    if not det and d.get("judgement"):
+        how = "judgement: " + d["judgement"][:200]
+    rows.append(f"| {name} | {d['property']} | {'yes' if d.get('confirmed') else 'NO'} | {', '.join(det) or missed} | {first} | {how.replace('|', '/')} |")
 with open(os.path.join(V, "seeded", "INDEX.md"), "w") as f:
     f.write("# Seeded changes (written by independent sub-agents that saw only the property text)\n\n"
             "Each directory holds patch.diff, demo.py (fails with / passes without the patch), notes.md and meta.json (what was run).\n"
